@@ -189,4 +189,93 @@ def run(rd, emit, log, enum_values, ti_default):
     if bg is None:
         log.append('C18: binding loop of EvaluateFilter not recognised (compared only)')
     body += 'Definition f_pm_bind_guard : option bool := %s.\n' % ('None' if bg is None else ('Some true' if bg else 'Some false'))
+    # ---- the permission frame's namespace is private to EvaluateFilter: in GetFilterTargets it is only ever a
+    # `new Namespace()`, the request's filter_vars are Set into the namespace of the USER's frame, and
+    # FilteredAddTarget evaluates each filter through EvaluateFilter on its own frame
+    pn = None
+    m = re.search(r'FilterUtility::GetFilterTargets\s*\(', fu)
+    if m:
+        i = fu.find('{', m.end())
+        depth, k = 1, i + 1
+        while k < len(fu) and depth:
+            if fu[k] == '{': depth += 1
+            elif fu[k] == '}': depth -= 1
+            k += 1
+        gb = fu[i + 1:k - 1]
+        decl = re.search(r'Namespace::Ptr\s+(\w+)\s*=\s*new\s+Namespace\s*\(\s*\)\s*;\s*ScriptFrame\s+permissionFrame\s*\(\s*false\s*,\s*(\w+)\s*\)\s*;', gb)
+        decl2 = re.search(r'ScriptFrame\s+permissionFrame\s*\(\s*false\s*,\s*new\s+Namespace\s*\(\s*\)\s*\)\s*;', gb)
+        assigns = re.findall(r'permissionFrame\s*\.\s*Self\s*=\s*([^;]*);', gb)
+        um = re.search(r'ScriptFrame\s+frame\s*\(\s*false\s*,\s*(\w+)\s*\)\s*;', gb)
+        uns = um.group(1) if um else None
+        udecl = re.search(r'Namespace::Ptr\s+' + re.escape(uns) + r'\s*=\s*new\s+Namespace\s*\(\s*\)\s*;', gb) if uns else None
+        fvset = re.findall(r'(\w+)\s*->\s*Set\s*\(\s*kv\.first\s*,\s*kv\.second\s*\)', gb)
+        fa = re.search(r'static\s+void\s+FilteredAddTarget\s*\([^)]*\)\s*\{(.*?)\n\}', fu, flags=re.S)
+        fab = re.sub(r'\s+', ' ', fa.group(1)) if fa else ''
+        # every namespace the permission frame is given: `new Namespace()` itself, or a variable that holds a fresh one
+        # and is used for nothing else.  Recognisably different: it is given the namespace of the user's frame / the one
+        # the filter_vars are Set into.
+        shared, odd = False, False
+        for a_ in assigns:
+            a_ = re.sub(r'\s+', '', a_)
+            if a_ == 'newNamespace()':
+                continue
+            if re.fullmatch(r'\w+', a_):
+                if a_ == uns or a_ in fvset:
+                    shared = True
+                elif not (re.search(r'Namespace::Ptr\s+' + re.escape(a_) + r'\s*=\s*new\s+Namespace\s*\(\s*\)\s*;', gb)
+                          and len(re.findall(r'\b' + re.escape(a_) + r'\b', gb)) == 2):
+                    odd = True
+            else:
+                odd = True
+        if shared:
+            pn = False
+        elif odd or (fa and re.search(r'->\s*Evaluate\s*\(', fab)):
+            pn = None
+        elif (decl or decl2) and udecl and fvset and fa:
+            pns = decl.group(1) if decl else None
+            good = (decl is None or decl.group(1) == decl.group(2))
+            good = good and all(x == uns for x in fvset)
+            if pns:
+                # the declared permission namespace is used for nothing but the frame's construction
+                good = good and len(re.findall(r'\b' + re.escape(pns) + r'\b', gb)) == 2 and pns != uns
+            good = good and bool(re.search(r'EvaluateFilter\(permissionFrame, permissionFilter, target, variableName\)', fab))
+            good = good and bool(re.search(r'EvaluateFilter\(frame, ufilter, target, variableName\)', fab))
+            # nothing but EvaluateFilter writes into a frame's namespace from here
+            good = good and not re.search(r'permissionFrame\s*\.\s*Self\s*\.|permissionFrame\s*\.\s*Locals\s*=', gb)
+            pn = good
+    if pn is None:
+        log.append('C18: privacy of the permission frame namespace in GetFilterTargets not recognised (compared only)')
+    body += 'Definition f_pm_perm_ns_private : option bool := %s.\n' % ('None' if pn is None else ('Some true' if pn else 'Some false'))
+    # ---- the two per-request caches of the joins loop are keyed by IDENTITY (the joined object's / its type's address),
+    # joinAttrs is an ordered set.  Some true = recognised and as the model has it; Some false = recognisably keyed by
+    # something that does not identify the object (a String / a name); None = not recognised (compared only).
+    def cache_fact(var, value_re, good_keys):
+        if not b:
+            return None, None
+        m = re.search(r'std::(?:unordered_)?map\s*<\s*([^,<>]+?)\s*,\s*' + value_re + r'\s*>\s*' + var + r'\s*;', b, flags=re.S)
+        if not m:
+            return None, None
+        keyt = re.sub(r'\s+', '', m.group(1))
+        finds = re.findall(var + r'\s*\.\s*find\s*\(\s*([^;]*?)\s*\)\s*;', b)
+        ins = re.findall(var + r'\s*\.\s*(?:insert|emplace)\s*\(\s*\{?\s*([^,]*?)\s*,', b)
+        uses = sorted(set(re.sub(r'\s+', '', x) for x in finds + ins))
+        text = keyt + ' keyed by ' + '/'.join(uses)
+        if re.fullmatch(r'(?:const)?(?:icinga::)?String', keyt) or any(re.search(r'GetName\(\)|Name\b', x) for x in uses):
+            return False, text
+        if re.fullmatch(r'(?:const)?(?:Object|ConfigObject|Type)(?:\*|::Ptr)', keyt) and uses and all(x in good_keys for x in uses):
+            return True, text
+        return None, text
+    ck, ck_text = cache_fact('objectAccessAllowed', r'bool', ('joinedObj.get()', 'joinedObj'))
+    tk, tk_text = cache_fact('typePermissions', r'std::pair\s*<\s*bool\s*,[^;]*', ('reflectionType.get()', 'reflectionType'))
+    ja = None
+    if b:
+        m = re.search(r'(std::\w+\s*<\s*String\s*>)\s+joinAttrs\s*;', b)
+        if m and re.sub(r'\s+', '', m.group(1)) == 'std::set<String>':
+            ja = True
+    for nm, val, what in (('f_pm_join_cache_by_identity', ck, 'key of objectAccessAllowed'), ('f_pm_join_type_cache_by_identity', tk, 'key of typePermissions'),
+                          ('f_pm_join_attrs_sorted', ja, 'container of joinAttrs')):
+        if val is None:
+            log.append('C18: %s not recognised (compared only)' % what)
+        body += 'Definition %s : option bool := %s.\n' % (nm, 'None' if val is None else ('Some true' if val else 'Some false'))
+    body += 'Definition f_pm_join_cache_text : string := "%s"%%string.\n' % ('%s; %s' % (ck_text, tk_text)).replace('"', '')
     emit('Facts_c18.v', body)
